@@ -3,7 +3,7 @@
    helper registration are decided by the check on the real planner (every emitted sub-request is validated by the
    receiving evaluating fake against ITS OWN schema; coverage/helpers through C01's single-server equality). *)
 From Coq Require Import List String Bool Arith.
-From Pebbles Require Import Base.Json Plan.Vars Plan.VarsProofs Plan.Header Plan.HeaderProofs Merge.Model Plan.Steps Plan.StepsProofs Plan.StepsCount.
+From Pebbles Require Import Base.Json Plan.Vars Plan.VarsProofs Plan.Header Plan.HeaderProofs Merge.Model Plan.Steps Plan.StepsProofs Plan.StepsCount Plan.Sanitize Plan.SanitizeProofs.
 Import ListNotations.
 Open Scope string_scope.
 
@@ -128,6 +128,32 @@ Example c02_plan_nonvacuous :
            mkStep "b" "Human" ["me"; "friend"] [PNode "Human" [PField "phone" "phone" "String" []]] []]].
 Proof. vm_compute. split; reflexivity. Qed.
 
+(* ---- helpers (sanitizeSelectionSet, modelled in Plan/Sanitize.v) ----
+   Wherever a field with a selection set occurs in the operation (under any nesting of fields and fragments: occ), the
+   helper fields the sanitizer adds to its selection are registered for removal in the final table, at that field's
+   path, for every type an object there can have (the field's type, or every possible type of an abstract one) ... *)
+Theorem helpers_added_to_a_field_are_registered : forall tm sc ss ip a n ty d x sub ip',
+  occ ss ip (SanField a n ty d (x :: sub)) ip' ->
+  forall f T, In f (added_for tm sc ip' a ty (x :: sub)) -> In T (reg_types sc ty) ->
+  In ((ip' ++ [a])%list, T, f) (snd (sanitize tm sc ss ip)).
+Proof. exact added_helpers_are_registered. Qed.
+(* ... what is added are `__typename` and `id` only, and only when the (sanitized) selection does not have them already,
+   directly or inside a fragment *)
+Theorem only_the_two_helpers_are_added : forall tm sc ss t f,
+  In f (snd (add_scrub_fields tm sc ss t)) -> f = "__typename" \/ f = "id".
+Proof. exact added_only_helpers. Qed.
+Theorem a_helper_is_added_only_when_missing : forall tm sc ss t f,
+  In f (snd (add_scrub_fields tm sc ss t)) -> contains ss f = false.
+Proof. exact added_not_selected. Qed.
+Example c02_sanitize_nonvacuous :
+  sanitize SanitizeProofs.ex_tm ex_sc ex_in [] =
+  ([SanField "me" "me" "Human" 0 [id_helper; SanField "name" "name" "String" 0 [];
+                                  SanField "friend" "friend" "Human" 0 [id_helper; SanField "phone" "phone" "String" 0 []]];
+    SanField "beings" "beings" "Being" 0 [Sanitize.typename_helper; SanFrag "Pet" "Being" [id_helper; SanField "weight" "weight" "Int" 0 []]]],
+   [(["me"; "friend"], "Human", "id"); (["me"], "Human", "id"); (["beings"], "Pet", "id");
+    (["beings"], "Human", "__typename"); (["beings"], "Pet", "__typename")]).
+Proof. exact ex_sanitize. Qed.
+
 Example c02_nonvacuous :
   variables_list [SField "a" "f" [("x", VVar "v1"); ("o", VObj [("k", VList [VVar "v2"; VLit "3"])])] []
                          [SInline "T" [] [SField "g" "g" [("y", VVar "v3")] [] []]]]
@@ -148,3 +174,6 @@ Print Assumptions C02_header_needs_annotations.
 Print Assumptions kept_and_moved_fields_are_owned.
 Print Assumptions every_plan_step_asks_for_its_own_fields.
 Print Assumptions nothing_lost_nothing_sent_twice.
+Print Assumptions helpers_added_to_a_field_are_registered.
+Print Assumptions only_the_two_helpers_are_added.
+Print Assumptions a_helper_is_added_only_when_missing.
